@@ -26,7 +26,7 @@ func Main(c *run.Ctx) {
 	if c.Quick() {
 		cfgs = cfgs[:4]
 	}
-	c01.RunConfigs(c, "C02", cfgs, c.Pick(50, 300), c.Pick(60, 500), true)
+	c01.RunConfigs(c, "C02", cfgs, c.Pick(60, 300), c.Pick(150, 500), true)
 	c.Floor("blocks checked", 50, 0)
 	c.Floor("rows compared with submitted rows", 1000, 0)
 	c.Floor("single-chunk requests found whole in one successful block", 20, 0)
